@@ -325,6 +325,12 @@ func (c *Cache) mqUnsubscribe(v interface{}) {
 	c.mu.Lock()
 	defer c.mu.Unlock()
 
+	// The entry may already have been evicted by an earlier callback that
+	// was overtaken by a resubscribe and release of the same entry.
+	if c.eventSubs[eventSub.ResourceName] != eventSub {
+		return
+	}
+
 	if !eventSub.mqUnsubscribe() {
 		return
 	}
